@@ -999,6 +999,13 @@ async fn cancel_session(auth: &Authority, sid: &str, when: u8, rep: &mut CaseRep
     rep.class(format!("cancel:{}:{}", match when { 1 => "right_after_202", 2 => "few_ms_later", _ => "after_run_ended" }, s.as_u16()));
 }
 
+// requests the scripted provider of the current case has received (read when a wait times out)
+thread_local! {
+    static CUR_PROVIDER_REQUESTS: std::cell::RefCell<Option<std::sync::Arc<std::sync::Mutex<Vec<rv::provider::Recorded>>>>> = const { std::cell::RefCell::new(None) };
+}
+/// 4 runs x (32 tool calls + scripted turns) stays far below this
+const PROVIDER_REQUEST_BOUND: usize = 600;
+
 async fn drive(case: &Case, send_second_input: bool, rep: &mut CaseReport) -> Result<Driven, String> {
     // ---- provider script: all turns of prompt-like inputs, in issue order
     let mut flat_turns: Vec<Turn> = Vec::new();
@@ -1020,6 +1027,7 @@ async fn drive(case: &Case, send_second_input: bool, rep: &mut CaseReport) -> Re
         std::thread::scope(|sc| sc.spawn(move || h.block_on(Provider::start(script, fallback))).join())
     })
     .map_err(|_| "provider start panicked".to_string())?;
+    CUR_PROVIDER_REQUESTS.with(|c| *c.borrow_mut() = Some(provider.requests.clone()));
     // stragglers of the previous case on this runtime (closing connections) must be gone before
     // the task count can be trusted
     let reliable = wait_quiet(false, Duration::from_secs(2), || alive_tasks() == 0).await == Quiet::Done;
@@ -1759,6 +1767,20 @@ fn run(case: &Case, known_registered: bool, explicit_replay: bool) -> CaseReport
     let d = match driven {
         Ok(d) => d,
         Err(why) => {
+            // a wait that timed out is inconclusive - unless the count of provider requests shows
+            // that a run is not going to end: every run has a budget of 32 tool calls (one provider
+            // request per round), a case starts at most 4 runs, so a few hundred requests cannot
+            // be reached by runs that end. This is a count, not a clock: a slow machine issues
+            // fewer requests, never more.
+            let served = CUR_PROVIDER_REQUESTS.with(|c| c.borrow().as_ref().map(|r| r.lock().unwrap().len())).unwrap_or(0);
+            if served > PROVIDER_REQUEST_BOUND {
+                rep.fail(
+                    "run|never_ends|provider_requests_beyond_every_budget",
+                    json!({"provider_requests": served, "bound": PROVIDER_REQUEST_BOUND, "wait": why,
+                        "engine": format!("{:?}", case.engine), "fallback": format!("{:?}", case.fallback)}),
+                );
+                return rep;
+            }
             rep.inconclusive(&why);
             return rep;
         }
